@@ -109,12 +109,6 @@ theorem graph_fold_f0 (fuel : Nat) (ms : List Src.Macro) (env : Src.Env) (he : P
         congr 1
         simp; omega
 
-/-! ### sequential routine ids -/
-
-def seqFrom : List Routine → Nat → Bool
-  | [], _ => true
-  | r :: rs, a => (r.rid == none || r.rid == some a) && seqFrom rs (a + 1)
-
 theorem routineId_seq (r : Routine) (a : Nat) (h : (r.rid == none || r.rid == some a) = true) : routineId r a = a := by
   unfold routineId
   cases hr : r.rid with
